@@ -90,7 +90,7 @@ Definition ix_upd_stats (st : option istats) (c : chunk) (mapped : bool) : istat
 (** Error classes: 1 outside indexable range, 2 reference order, 3 position order,
     4 placed record with a negative reference id. *)
 Definition ix_add (ix : index) (r : irec) : outcome index :=
-  if negb (ix_valid_pos (q_start r)) || negb (ix_valid_pos (q_end r)) then Err 1 else
+  if negb (ix_valid_pos (q_start r)) || negb (ix_valid_pos (q_end r - 1)) then Err 1 else
   let um := match iunm ix with Some u => u | None => 0 end in
   if negb (q_placed r) then Ok (mkIdx (irefs ix) (Some (um + 1)) (isorted ix) (ilast ix)) else
   let rid := q_rid r in
